@@ -60,6 +60,7 @@ impl State {
 //@use state.fns State::set_runtime_err_location
 //@use state.fns State::next
 //@use state.fns State::run#loop
+//@use state.fns State::run#strict
 //@use state.fns State::reverse_changes
 //@use state.fns State::dict_entry
 //@use state.fns State::load_value_opcode
